@@ -72,12 +72,14 @@ type Scenario struct {
 	StoredSalt   *int64
 	RotateBefore map[int]int64
 	// Fresh: no stored session; the client runs the key exchange against reference server R3 first.
-	Fresh     *authsrv.Config
-	Seed      uint64 // owned random stream of the client (only with Fresh or OwnRandom)
-	OwnRandom bool
-	PublicKey *rsa.PublicKey // overrides the key given to the client (default: the server's)
-	Handler   bool           // register a custom server-request handler that accepts everything
-	Setup     func(w *World)
+	Fresh       *authsrv.Config
+	Seed        uint64 // owned random stream of the client (only with Fresh or OwnRandom)
+	OwnRandom   bool
+	NoOwnRandom bool           // with Fresh: leave the random sources alone (C19)
+	ClockStart  int64          // virtual clock start (unix nanos); 0 = default
+	PublicKey   *rsa.PublicKey // overrides the key given to the client (default: the server's)
+	Handler     bool           // register a custom server-request handler that accepts everything
+	Setup       func(w *World)
 	// AfterConnect runs in the main thread right after CreateConnection returned.
 	AfterConnect        func(w *World)
 	SaltAfterExchange   func(w *World)
@@ -178,6 +180,9 @@ func Run(sc *Scenario, prefix []int, tracing bool) *World {
 	s := sched.New(prefix)
 	s.Tracing = tracing
 	w := &World{S: s, Sc: sc, Store: &MemStore{}, Warn: make(chan error, 64)}
+	if sc.ClockStart != 0 {
+		s.SetClock(sc.ClockStart)
+	}
 	w.Net = NewNet(s)
 	key := TestKey()
 	w.Srv = rpcsrv.New(key, sc.Salt)
@@ -211,7 +216,7 @@ func Run(sc *Scenario, prefix []int, tracing bool) *World {
 			return out
 		}
 	}
-	if sc.Fresh != nil || sc.OwnRandom {
+	if (sc.Fresh != nil && !sc.NoOwnRandom) || sc.OwnRandom {
 		vrand.Own(sc.Seed)
 		defer vrand.Release()
 	}
